@@ -1,4 +1,5 @@
 """C18 — the stack extension is gated by its feature flag, and only it."""
+import re
 from ..facts import callee_of, short, sp_file_line, expr_str, expr_walk, op_local
 from .. import kit, tables
 from ..effects import Effects
@@ -188,6 +189,10 @@ def run(ctx):
     fs = ctx.fn("lace::<features::Features as core::str::traits::FromStr>::from_str")
     tab = tables.str_table(prog, fs)
     lits = sorted(l for l, v, tb, gb in tab)
+    # the empty word (doubled or trailing comma) may also be skipped by an is_empty test, in the loop or in a filter closure over the words
+    scope_fs = [fs] + [prog.fns[n] for n in prog.fns if n.startswith(fs.name + "::{closure")]
+    if "" not in lits and any(c and c.endswith("str>::is_empty") for f_ in scope_fs for b, t, c in f_.calls()):
+        lits = sorted(lits + [""])
     ctx.instance(1, {"feature words": lits})
     ok = lits == ["", "stack"]
     ctx.oblig(ok, None)
@@ -198,6 +203,10 @@ def run(ctx):
         if l == "stack":
             refs = [s for s in fs.stmts(tb) if s["k"] == "assign" and s["r"]["k"] == "ref"]
             okk = any([e.get("n") for e in s["r"]["p"].get("pr", []) if isinstance(e, dict)] == ["stack"] for s in refs)
+            # or the field is written directly on the accepted side (`features.stack = true`), which the refused side cannot reach
+            side = fs.reachable(tb, avoid={gb}) - fs.reachable([x for l2, v2, tb2, gb2 in tab if l2 == "stack" for x in [tb2]][0], avoid=set()) if False else fs.reachable(tb, avoid={gb})
+            okk = okk or any(s2["k"] == "assign" and [e.get("n") for e in s2["p"].get("pr", []) if isinstance(e, dict)] == ["stack"]
+                             and s2["r"]["k"] == "use" and s2["r"]["a"].get("int") == 1 for b2 in side for s2 in fs.stmts(b2))
             ctx.oblig(okk, {"'stack'": "selects Features.stack"}, "field reference on the true edge")
             if not okk:
                 ctx.violation("stack-word-field", sp_file_line(fs.term(gb).get("sp")), "the word 'stack' does not set the stack field")
@@ -210,7 +219,8 @@ def run(ctx):
     cl = [n for n in prog.fns if n.startswith("lace::features::init::{closure")]
     ctx.need(cl, "closure of features::init")
     cf = prog.fns[cl[0]]
-    wr = [b for b, i, s in cf.assigns() if s["p"].get("pr") == ["*"]]
+    wr = [b for b, i, s in cf.assigns() if s["p"].get("pr") == ["*"]] + \
+         [b for b, t, c in cf.calls() if c and re.search(r"cell::(Cell|RefCell)::<T>::(set|replace)$", c)]      # `features.set(Some(value))` on a Cell
     isn = [b for b, t, c in cf.calls() if c and c.endswith("Option::<T>::is_none")]
     ok = bool(wr) and bool(isn)
     if ok:
